@@ -158,6 +158,8 @@ MAPFORMS = [("[k for k in keys m]", "[k for k in $K]"), ("[v for v in values m]"
             ("[[a, b] for a in [1, 2] for b in keys m]", "[[a, b] for a in [1, 2] for b in $K]"), ("[[a, b] for a in $K also for b in entries m]", "[[a, b] for a in $K also for b in $E]"),
             ("def seen = []; def t = <<append(seen, k)[0] for k in keys m>>; seen", "$K"), ("def seen = []; def t = <<<k => append(seen, k) for k in keys m>>>; seen", "$K"),
             ("def seen = []; def t = <<<1 => append(seen, v) for v in values m>>>; seen", "$V"), ("def seen = []; def t = <<append(seen, e)[0] for e in entries m also for z in $K>>; seen", "$E"),
+            ("def f(a...) a...; do f(...m) catch all 'named' end", "do def f(a...) a...; def v = $V; def k = $K; if type(k[0]) == 'string' then 'named' else f(...v) catch all 'named' end"),
+            ("def f(a...) a...; do f(0, ...m) catch all 'named' end", "do def f(a...) a...; def v = $V; def k = $K; if type(k[0]) == 'string' then 'named' else f(0, ...v) catch all 'named' end"),
             ("sorted(list(set(m)))", "$K"), ("def [p, q] = set(m); [p, q]", "def [p, q] = $K; [p, q]")]
 
 
